@@ -20,8 +20,12 @@ RULE = (
     "the tiles; most operands follow the producer(stage s) -> consumer(stage s+1) chain (60..100% per case), the rest are drawn "
     "from side operands or freely, so every buffer-to-stage assignment occurs (what pipeline-duplicate-buffers refuses with "
     "NotImplementedError is a rejection); extra read-only inputs, second outputs, a second op per stage; rarely: accumulating "
-    "outs, an index scalar operand, a copy after the loop that reads an L1 buffer. Bounds are constants (ub sometimes a run-time "
-    "argument) with lb in {0,1,2,3}, step in {1,2,3}, trip counts 0..6 (0..8 thorough), about three quarters >= stages-1. "
+    "outs, an index scalar operand, a copy after the loop that reads an L1 buffer. Bounds are constants "
+    "with lb in {0,1,2,3}, step in {1,2,3}, trip counts 0..6 (0..8 thorough), about three quarters >= stages-1. In about 30% of the "
+    "cases lb and/or ub and/or step (every combination) are run-time values: index function arguments, or argument + constant; "
+    "both programs are executed with the recipe's values, chosen to make a difference (run-time lb mostly non-zero, one fifth "
+    "lb >= ub with a constant ub >= stages-1; run-time step mostly != 1; ub not a multiple of step), while the bounds that stay "
+    "constant are mostly canonical (classes 'run-time lb: ...'). "
     "In about 60% of the cases the SSA values used as lb / ub / step have other users, as CSE'd MLIR has them: the bound is the "
     "shared pool constant %c<value> ('cse'), and/or the value is an operand of index arithmetic, a tile row or a scalar stage "
     "operand in the body, the row of a tile copied before the loop (then a barrier) or copied / computed on after the loop, the "
@@ -302,6 +306,18 @@ def check_case(rc, want_text=False):
     if trip != max(0, -((rc["lb"] - rc["ub"]) // rc["step"])):
         classes.append("pipeline-canonicalize-for changed the trip count (C17, not judged here)")
     classes.append("pipelined" if constructed else "not-pipelined")
+    if rc.get("lb_dyn"):
+        classes.append("run-time lb: " + ("lb >= ub (zero trip)" if rc["lb"] >= rc["ub"] else "0" if rc["lb"] == 0 else "non-zero"))
+        if rc["lb"] >= rc["ub"] and not rc.get("ub_dyn") and not rc.get("step_dyn") and rc["step"] == 1 and rc["ub"] >= S - 1:
+            classes.append("run-time lb: lb >= ub, constant ub >= stages-1, constant step 1")
+        if rc["lb"] != 0 and not rc.get("ub_dyn") and not rc.get("step_dyn") and rc["step"] == 1 and rc["ub"] >= S - 1:
+            classes.append("run-time lb: non-zero, constant ub >= stages-1, constant step 1")
+    if rc.get("step_dyn"):
+        classes.append("run-time step: " + ("1" if rc["step"] == 1 else "!= 1"))
+    if rc.get("ub_dyn"):
+        classes.append("run-time ub: " + ("lb + multiple of step" if (rc["ub"] - rc["lb"]) % rc["step"] == 0 else "not a multiple"))
+    if constructed and any(rc.get(w + "_dyn") for w in ("lb", "ub", "step")):
+        classes.append("pipelined with a run-time bound")
     if alias:
         classes.append("loop-carried dependence through distinct subviews")
     classes.append(f"duplicated:{min(len(dup), 3)}")
